@@ -733,6 +733,33 @@ def fixed_generator_held_to_length(ctx, P):
     ctx.floor(P + ':S17-7:floor', 'fixed-length generators that forward a source', n, 1)
 
 
+def encrypted_chunks_as_long_as_announced(ctx, P):
+    """`encrypt_write` announces every non-final chunk of the encrypted container as `Partial(partial_chunk_size)` and reads that chunk
+    with `fill_buffer(.., Some(n))`: the octets that follow a partial length are exactly the announced number only if `n` IS the
+    announced size (minus the header octets in the first chunk) - a read size that is clamped or capped (`min` with another bound)
+    writes chunks that are shorter than they declare.  The chunk sizes read derive from the chunk-size parameter without a clamp."""
+    cands = [p for p in ctx.f.bodies if p.endswith('composed::message::builder::encrypt_write')]
+    b = ctx.body(cands[0]) if cands else None
+    if b is None:
+        ctx.missing(P + ':S17-8:encrypted-chunks-as-announced', 'encrypt_write not found')
+        return
+    parts = [(i, st) for i, k, st in b.stmts(lambda st: st['r']['k'] == 'agg' and st['r'].get('v') == 'Partial' and (st['r'].get('adt') or '').endswith('PacketLength'))]
+    fills = b.calls(r'util::fill_buffer$')
+    src = set()
+    for i, st in parts:
+        src |= set(x for x in b.operand_origins(st['r']['o'][0]) if x.startswith('param:'))
+    bad = []
+    for i, t in fills:
+        if len(t['args']) < 3:
+            continue
+        og = b.operand_origins(t['args'][2])
+        if not (src & set(x for x in og if x.startswith('param:'))) or has_origin(og, r'call:.*(cmp::Ord::min|cmp::min|clamp)$'):
+            bad.append(i)
+    ctx.check(P + ':S17-8:encrypted-chunks-as-announced', 'origin', 'the chunk sizes encrypt_write reads are the announced partial length (no clamp between the chunk-size parameter and the read)',
+              bool(parts) and len(fills) >= 2 and not bad, function=b.path, site=site(b, bad[0]) if bad else None,
+              missing=None if not bad else 'the read size at %s does not derive from the announced chunk size alone (clamped / other source): a chunk announced as Partial(n) carries fewer octets' % site(b, bad[0]))
+
+
 def partial_chunk_size_bounded(ctx, P):
     """RFC 9580 4.2.1.4: a partial body length is 2^n with n <= 30 (first octet 224..254); 255 introduces a five-octet length.  A chunk
     size of 2^31 passes `>= 512 && is_power_of_two()` for a u32, and is then either written as first octet 255 (read back as a fixed
@@ -773,6 +800,7 @@ def run(ctx):
     partial_emitters(ctx, P)
     partial_chunk_size_bounded(ctx, P)
     fixed_generator_held_to_length(ctx, P)
+    encrypted_chunks_as_long_as_announced(ctx, P)
     illegal_framing_stops_the_parser(ctx, P)
     message_parser_consumes_bodies(ctx, P)
     drain_error_propagates(ctx, P)
